@@ -4,10 +4,19 @@ which reference-oracle families belong to the property, evidence level and trust
 SUITES = {
     # suite -> harness generator parameters per tier
     "C": {"quick": ["--cases", "500"], "thorough": ["--cases", "6000"]},
+    "P": {"quick": ["--cases", "300", "--max-ops", "7"], "thorough": ["--cases", "3000", "--max-ops", "14"]},
     "T": {"quick": ["--cases", "150", "--max-ops", "60"], "thorough": ["--cases", "1500", "--max-ops", "120"]},
 }
 
 PROPS = {
+    "C15": {
+        "lean": ["Brc20.Props.C15"],
+        "suites": ["P"],
+        "level": "proof",
+        "trusted": ["zstd (parameter): decompress(compress x) = x when it fits, output never exceeds the buffer; supplied to the model as an oracle value on each line",
+                    "base64 crate STANDARD_NO_PAD and nada 0.2.2 are modelled from their sources and validated by correspondence"],
+        "assumptions": ["RPC-level equality of transactions/receipts for hex vs base64 submissions is covered at the field-selection level here (select_bytes) and end-to-end by the engine suite"],
+    },
     "C14": {
         "lean": ["Brc20.Props.C14"],
         "suites": ["C"],
